@@ -398,7 +398,7 @@ pub fn c01(thorough: bool, replay: Option<String>) -> i32 {
     rep.add_sub("OPLIT", "every literal of the boundary set and every value-returning operator (on parameters and on constants), quoted data and quoted symbols, in 6 positions (main body, function argument, inline argument, defconst, macro argument, let binding) x 6 sigils x 2 option sets x 3 valuations", n, true, capped, st);
 
     let mut data: Vec<Case> = vec![];
-    let data_positions: Vec<&str> = if thorough { OPLIT_POSITIONS.to_vec() } else { vec!["main-body", "function-body", "defconst"] };
+    let data_positions: Vec<&str> = if thorough { OPLIT_POSITIONS.to_vec() } else { vec!["main-body", "defconst"] };
     for s in SIGILS {
         data.extend(lookalike_cases(Some(s), thorough, &data_positions));
     }
